@@ -85,7 +85,12 @@ def assignments(toks, limit=3):
             acc.pop()
         elif t[0] == "(":
             acc.append(None if expect_operand else "juxt")
-            rec(i + 1, True, depth + 1, acc)
+            if i + 1 < len(toks) and toks[i + 1][0] == ")":
+                acc.append(None)                 # an empty pair of fences is an operand
+                rec(i + 2, False, depth, acc)
+                acc.pop()
+            else:
+                rec(i + 1, True, depth + 1, acc)
             acc.pop()
         elif t[0] == ")":
             if not expect_operand and depth > 0:
@@ -153,6 +158,10 @@ def ref_spans(toks, forms):
             return (i, i + 1)
         if t[0] == "(":
             pos[0] += 1
+            if toks[pos[0]][0] == ")":
+                pos[0] += 1
+                spans.add((i, pos[0]))
+                return (i, pos[0])
             inner = parse(0)
             assert toks[pos[0]][0] == ")"
             pos[0] += 1
@@ -290,6 +299,21 @@ def invariants(canon):
             return ("postfix", d[txt(last)]["postfix"], txt(last))
         return None
 
+    PAIRS = {"(": ")", "[": "]", "{": "}"}
+    CLOSERS = set(PAIRS.values())
+    allmo = [(k.text or "") for _, k in t.walk() if k.tag == "mo"]
+    balanced = True
+    for o_, c_ in PAIRS.items():
+        depth_ = 0
+        for x in allmo:
+            if x == o_:
+                depth_ += 1
+            elif x == c_:
+                depth_ -= 1
+                if depth_ < 0:
+                    balanced = False
+        if depth_ != 0:
+            balanced = False
     for _, n in t.walk():
         if n.tag != "mrow" or len(n.kids) < 2:
             continue
@@ -314,6 +338,17 @@ def invariants(canon):
             idx = [i for i, k in enumerate(ks) if is_op(k) and txt(k) == match]
             if idx and idx[-1] != len(ks) - 1 and not any(is_op(k) and txt(k) == txt(first) for k in ks[1:]):
                 out.append(("fence-not-closing-row", f"a row starts with {txt(first)} and contains {match} but goes on after it"))
+        # a matched pair of fences encloses exactly its contents: when the fences of the whole expression are balanced, no row starts
+        # with a closing fence, and the direct children of a row are balanced too (a pair is never split between a row and a sub-row)
+        if balanced:
+            if is_op(first) and txt(first) in CLOSERS:
+                out.append(("row-starts-with-closing-fence", f"a row starts with {txt(first)!r}"))
+            for o_, c_ in PAIRS.items():
+                no = sum(1 for k in ks if is_op(k) and txt(k) == o_)
+                nc = sum(1 for k in ks if is_op(k) and txt(k) == c_)
+                if no != nc:
+                    out.append(("fence-pair-split", f"a row has {no} {o_!r} and {nc} {c_!r} among its direct children"))
+                    break
         # nested infix/postfix rows bind at least as tightly as the containing row's operator
         me = principal(n)
         alt = lambda r: len(r.kids) >= 3 and len(r.kids) % 2 == 1 and all(not is_op(x) for x in r.kids[0::2]) and all(is_op(x) for x in r.kids[1::2])
@@ -341,7 +376,7 @@ def render(toks):
         elif t[0] == "o":
             kids.append(mo(t[1]))
         else:
-            kids.append(mo(t[0]))
+            kids.append(mo(t[1] if len(t) > 1 else t[0]))
     return kids
 
 
@@ -427,6 +462,31 @@ def rows_for(tier):
             rows.append(("funcapp", [X("a"), O(o), FN(g), ("(",), X("b"), (")",), O(o), X("k")]))
             rows.append(("funcapp", [X("a"), O(o), FN(g), X("b")]))
             rows.append(("funcapp", [X("2"), X("a"), O(o), X("3"), X("b"), X("k")]))
+    # empty pairs of fences as operands, in every position, for every kind of fence and class of infix operator
+    for (fo, fc) in (("(", ")"), ("[", "]"), ("{", "}")):
+        L, R = ("(", fo), (")", fc)
+        for o in inf_reps[::2]:
+            rows.append(("empty-fence", [L, R, O(o), X("a")]))
+            rows.append(("empty-fence", [X("a"), O(o), L, R]))
+            rows.append(("empty-fence", [X("a"), O(o), L, R, O(o), X("b")]))
+            rows.append(("empty-fence", [L, R, O(o), X("a"), O("+"), X("b"), X("k")]))
+            rows.append(("empty-fence", [L, L, R, R, O(o), X("a")]))
+            rows.append(("empty-fence", [L, L, R, O(o), X("a"), R, O(o), X("b")]))
+            rows.append(("empty-fence", [FN("f"), L, R, O(o), X("2")]))
+            rows.append(("empty-fence", [X("a"), O(o), FN("f"), L, R, O(o), X("2")]))
+        for p in pre_reps[::2]:
+            rows.append(("empty-fence", [O(p), L, R, O("+"), X("a")]))
+        for q in post_reps[::2]:
+            rows.append(("empty-fence", [L, R, O(q), O("+"), X("a")]))
+    # a prefix operator directly in front of an opening fence (the form of the operator has to be decided by looking past the fence)
+    for (fo, fc) in (("(", ")"), ("[", "]")):
+        L, R = ("(", fo), (")", fc)
+        for p in pre_reps:
+            for o in inf_reps[::3]:
+                rows.append(("prefix-fence", [O(p), L, X("b"), O("="), X("k"), R, O(o), X("a")]))
+                rows.append(("prefix-fence", [X("a"), O(o), O(p), L, X("b"), O("="), X("k"), R]))
+                rows.append(("prefix-fence", [O(p), L, X("b"), R, O(o), X("a")]))
+                rows.append(("prefix-fence", [O(p), L, L, X("b"), R, R, O(o), X("a")]))
     # parentheses with class representatives
     for o1, o2 in itertools.product(inf_reps[::2], repeat=2):
         rows.append(("paren", [X("a"), O(o1), ("(",), X("b"), O(o2), X("k"), (")",)]))
